@@ -69,6 +69,7 @@ def colon : UInt8 := 58
 def dquote : UInt8 := 34
 def squote : UInt8 := 39
 def space : UInt8 := 32
+def backslash : UInt8 := 92
 
 /-- `strncmp(p, lit, lit.length) == 0` -/
 def hasPrefix (lit s : Bytes) : Bool := s.take lit.length == lit
@@ -82,10 +83,8 @@ def isDigit (c : UInt8) : Bool := 48 ≤ c && c ≤ 57
     (none: 0), saturated to `LONG_MIN .. LONG_MAX` (64-bit long) -/
 def strtol (s : Bytes) : Int :=
   let s := s.dropWhile isSpace
-  let (neg, s) := match s with
-    | 45 :: r => (true, r)
-    | 43 :: r => (false, r)
-    | _ => (false, s)
+  let neg := s.head? == some 45                                         -- '-'
+  let s := if s.head? == some 45 || s.head? == some 43 then s.tail else s  -- '-' or '+'
   let v : Nat := (s.takeWhile isDigit).foldl (fun a c => a * 10 + (c.toNat - 48)) 0
   if neg then (if v > 2 ^ 63 then -(2 ^ 63 : Int) else -(v : Int))
   else (if v > 2 ^ 63 - 1 then (2 ^ 63 - 1 : Int) else (v : Int))
@@ -131,8 +130,11 @@ inductive PState where
   | inKey (acc : Bytes)
   /-- just after the `'='`: `if ((*s == '\'') || (*s == '"'))` is about to be evaluated -/
   | valStart (key : Bytes)
-  /-- inside a quoted value opened by `q` -/
+  /-- inside a quoted value opened by `q`; `acc` = the value with quoted-pairs already
+      reduced (the C code scans first and unescapes the copy afterwards, pairing the same way) -/
   | inQuoted (key : Bytes) (q : UInt8) (acc : Bytes)
+  /-- inside a quoted value, just after a backslash (fix 8218356: RFC 2831 §7.2 quoted-pair) -/
+  | inQuotedEsc (key : Bytes) (q : UInt8) (acc : Bytes)
   /-- inside an unquoted value (ends at `','`) -/
   | inBare (key : Bytes) (acc : Bytes)
   deriving Repr, DecidableEq
@@ -151,7 +153,11 @@ def pstep (st : PState × Table) (c : UInt8) : PState × Table :=
     else if c == comma then (.skip, t.add key [])
     else (.inBare key [c], t)
   | (.inQuoted key q acc, t) =>
-    if c == q then (.skip, t.add key acc.reverse) else (.inQuoted key q (c :: acc), t)
+    if c == q then (.skip, t.add key acc.reverse)
+    -- if ((*t == '\\') && (t[1] != '\0')) t++;  … and the unescape loop drops the backslash
+    else if c == backslash then (.inQuotedEsc key q acc, t)
+    else (.inQuoted key q (c :: acc), t)
+  | (.inQuotedEsc key q acc, t) => (.inQuoted key q (c :: acc), t)
   | (.inBare key acc, t) =>
     if c == comma then (.skip, t.add key acc.reverse) else (.inBare key (c :: acc), t)
 
@@ -161,6 +167,7 @@ def pfinish : PState × Table → Table
   | (.inKey _, t) => t                                -- `if (*t == '\0') break; /* bad string */`
   | (.valStart key, t) => t.add key []
   | (.inQuoted key _ acc, t) => t.add key acc.reverse -- unterminated quote: value up to the NUL
+  | (.inQuotedEsc key _ acc, t) => t.add key (acc.reverse ++ [backslash]) -- a lone final backslash is kept
   | (.inBare key acc, t) => t.add key acc.reverse
 
 /-- the loop of `_parse_digest_challenge` over the decoded text -/
@@ -172,10 +179,14 @@ def digestToHex (d : Bytes) : Bytes :=
     let dig (n : Nat) : UInt8 := UInt8.ofNat (if n < 10 then 48 + n else 87 + n)
     [dig (b.toNat / 16 % 16), dig (b.toNat % 16)]
 
+/-- `_make_quoted` (fix 8218356): `"` and `\` travel as quoted-pairs -/
+def makeQuoted (value : Bytes) : Bytes :=
+  [dquote] ++ value.flatMap (fun c => if c == dquote || c == backslash then [backslash, c] else [c]) ++ [dquote]
+
 /-- `_add_key(ctx, table, key, buf, quote)`; `buf = []` stands for both NULL and "" -/
 def addKey (t : Table) (key : Bytes) (buf : Bytes) (quote : Bool) : Bytes :=
   let value := (t.get key).getD []          -- "couldn't retrieve value": value = ""
-  let qvalue := if quote then [dquote] ++ value ++ [dquote] else value
+  let qvalue := if quote then makeQuoted value else value
   (if buf.isEmpty then buf else buf ++ [comma]) ++ key ++ [eq_] ++ qvalue
 
 def md5Of (chunks : List Bytes) : Bytes := Md5.final (chunks.foldl Md5.update Md5.init)
@@ -190,34 +201,20 @@ def kDigestUri : Bytes := cs ['d', 'i', 'g', 'e', 's', 't', '-', 'u', 'r', 'i']
 def kResponse : Bytes := cs ['r', 'e', 's', 'p', 'o', 'n', 's', 'e']
 def kCharset : Bytes := cs ['c', 'h', 'a', 'r', 's', 'e', 't']
 
-/-- `sasl_digest_md5(ctx, challenge, jid, password)`; `rnd` = what the random source delivers
-    for the cnonce.  `ok none` = NULL. -/
-def digestMd5 (challenge : Option Bytes) (jid password rnd : Bytes) : Res (Option Bytes) :=
-  match challenge with
-  -- _parse_digest_challenge: if (msg == NULL) return NULL;   (fix 26900de)
-  | none => .ok none
-  | some msg =>
-  -- text = xmpp_base64_decode_str(ctx, msg, strlen(msg)); if (text == NULL) return NULL;
-  match Base64.decodeStr msg with
-  | none => .ok none
-  | some text =>
-  let table := parseChallenge text
-  -- if (hash_get(table, "nonce") == NULL) { hash_release(table); return NULL; }   (fix 69bedf1)
-  if (table.get kNonce).isNone then .ok none else
-  let node? := Jid.node jid
-  let domain := Jid.domain jid
-  -- realm = hash_get(table, "realm"); if (realm == NULL || strlen(realm) == 0) hash_add(… domain)
-  let table := match table.get kRealm with
-    | none => table.add kRealm domain
-    | some r => if r.isEmpty then table.add kRealm domain else table
+/-- `realm = hash_get(table, "realm"); if (realm == NULL || strlen(realm) == 0) hash_add(table,
+    "realm", strophe_strdup(ctx, domain));` -/
+def withRealm (table : Table) (domain : Bytes) : Table :=
+  match table.get kRealm with
+  | none => table.add kRealm domain
+  | some r => if r.isEmpty then table.add kRealm domain else table
+
+/-- the part of `sasl_digest_md5` after the challenge has been parsed and `node`/`domain` have been
+    extracted: fill the table, hash, build the reply.  `cnonce` = what xmpp_rand_nonce wrote. -/
+def digestReply (table : Table) (node domain password cnonce : Bytes) : Res (Option Bytes) :=
+  let table := withRealm table domain
   let realm := (table.get kRealm).getD []
   -- hash_add(table, "username", strophe_strdup(ctx, node));
-  match node? with
-  | none => .crash "sasl_digest_md5:strdup(node)"
-  | some node =>
   let table := table.add kUsername node
-  -- xmpp_rand_nonce(ctx->rand, cnonce, sizeof(cnonce));
-  let cnonce := (randNonce Gen.Sasl.digestCnonceBuf rnd).getD []
   let table := table.add kCnonce cnonce
   let table := table.add kNc Gen.Sasl.digestNc
   -- hash_add(table, "qop", strophe_strdup(ctx, "auth"));   (unconditional since fix 554713d)
@@ -245,6 +242,28 @@ def digestMd5 (challenge : Option Bytes) (jid password rnd : Bytes) : Res (Optio
   let reply := Gen.Sasl.digestReplyKeys.foldl (fun buf kq =>
       if kq.1 == kCharset && (table.get kCharset).isNone then buf else addKey table kq.1 buf kq.2) []
   .ok (some (Base64.encode reply))
+
+/-- `sasl_digest_md5(ctx, challenge, jid, password)`; `rnd` = what the random source delivers
+    for the cnonce.  `ok none` = NULL. -/
+def digestMd5 (challenge : Option Bytes) (jid password rnd : Bytes) : Res (Option Bytes) :=
+  match challenge with
+  -- _parse_digest_challenge: if (msg == NULL) return NULL;   (fix 26900de)
+  | none => .ok none
+  | some msg =>
+  -- text = xmpp_base64_decode_str(ctx, msg, strlen(msg)); if (text == NULL) return NULL;
+  match Base64.decodeStr msg with
+  | none => .ok none
+  | some text =>
+  let table := parseChallenge text
+  -- if (hash_get(table, "nonce") == NULL) { hash_release(table); return NULL; }   (fix 69bedf1)
+  if (table.get kNonce).isNone then .ok none else
+  -- node = xmpp_jid_node(ctx, jid); domain = xmpp_jid_domain(ctx, jid); …
+  -- hash_add(table, "username", strophe_strdup(ctx, node)) dereferences node
+  match Jid.node jid with
+  | none => .crash "sasl_digest_md5:strdup(node)"
+  | some node =>
+    -- xmpp_rand_nonce(ctx->rand, cnonce, sizeof(cnonce));
+    digestReply table node (Jid.domain jid) password ((randNonce Gen.Sasl.digestCnonceBuf rnd).getD [])
 
 /-- outcome of a SASL challenge handler: the text of the `<response/>` handed to send_stanza, or
     `disconnect_mem_error` -/
@@ -454,6 +473,36 @@ def handleScramChallenge (alg : Alg) (init : ScramInit) (text : Option Bytes) (p
       (scramFinal alg init.channelBinding challenge init.firstBare password).bind fun
         | none => .ok .memerr
         | some r => .ok (.resp r)
+
+/-! ### "is a `<response/>` sent?" — for the connection model (C01–C03), which needs only this bit -/
+
+/-- `_handle_digestmd5_challenge` answers with a `<response/>` (instead of disconnecting) exactly
+    when the challenge has text that base64-decodes to a NUL-free string whose directive list
+    contains `nonce` (for a JID with a node; `Lemmas/Sasl.lean digestResponds_spec`) -/
+def digestResponds (text : Option Bytes) : Bool :=
+  match text with
+  | none => false
+  | some [] => false
+  | some msg =>
+    match Base64.decodeStr msg with
+    | none => false
+    | some t => ((parseChallenge t).get kNonce).isSome
+
+/-- `_handle_scram_challenge` answers with a `<response/>` exactly when the challenge has text
+    that decodes to a string with `r=`, `s=`, `i=` attributes and a base64-decodable salt
+    (`Lemmas/Sasl.lean scramResponds_spec`) -/
+def scramResponds (text : Option Bytes) : Bool :=
+  match text with
+  | none => false
+  | some [] => false
+  | some msg =>
+    match Base64.decodeStr msg with
+    | none => false
+    | some ch =>
+      let f := scanFields (tokens ch)
+      match f.r, f.s, f.i with
+      | some _, some s, some _ => (Base64.decodeBin s).isSome
+      | _, _, _ => false
 
 /-! ### component handshake, legacy authentication, the first `<auth/>` -/
 
